@@ -1,4 +1,4 @@
-import PymocaVerif.Lemmas.SimplifyPipeline
+import PymocaVerif.Lemmas.SimplifyElimComplete
 /-!
 # C14 — simplification preserves the DAE's solutions
 
@@ -118,5 +118,143 @@ theorem resolve_exact {I : Interp K} {E : Engine K} (hE : EngineOk I E) {σ : En
     Sat I σ (resolveParameterValues E m) ↔ Sat I σ m := resolve_sat hE m
 
 example : EngineOk exI exE ∧ Sat exI exσ exM := ⟨exE_ok, exM_sat⟩
+
+/-! ### no solution is invented: every solution of the simplified model extends to the original
+
+Each theorem gives, for a solution `τ` of the pass's result, an environment `σ` that solves the model
+the pass received and differs from `τ` only on the names the pass removed.  Together with
+`pass_sound` this is "the solution set of the result is the projection of the solution set of the
+input".  Side conditions: distinct variable names (`NamesNodup`, keys of one Python dict), the
+removed names are not mentioned by an already recorded alias (`ARFree`; trivially true on the first
+`_simplify_once`, whose alias relation is empty), and — for the passes with a substitution fixpoint —
+the resolved values are closed (the condition under which the real loop reports no failure). -/
+
+/-- replace_parameter_values -/
+theorem parameter_values_complete {I : Interp K} {E : Engine K} (hE : EngineOk I E) {τ : Env K} {m m' : Model K}
+    (h : replaceParameterValues E m = .ok m') (hnd : NamesNodup m)
+    (hna : ∀ v ∈ m.params, hasConstValue v = true → v.aliased = false)
+    (hfree : ARFree ((constValues m.params).map (·.1)) m.ar) (hs : Sat I τ m') :
+    ∃ σ, Sat I σ m ∧ ∀ n, n ∉ (constValues m.params).map (·.1) → σ n = τ n :=
+  pvalues_complete hE h hnd hna hfree hs
+
+/-- replace_constant_values -/
+theorem constant_values_complete {I : Interp K} {E : Engine K} (hE : EngineOk I E) {τ : Env K} {m m' : Model K}
+    (h : replaceConstantValues E m = .ok m') (hnd : NamesNodup m)
+    (hna : ∀ v ∈ m.consts, v.simple = true → v.aliased = false)
+    (hfree : ARFree (names (m.consts.filter Var.simple)) m.ar) (hs : Sat I τ m') :
+    ∃ σ, Sat I σ m ∧ ∀ n, n ∉ names (m.consts.filter Var.simple) → σ n = τ n :=
+  cvalues_complete hE h hnd hna hfree hs
+
+example : NamesNodup exM ∧ ARFree ((constValues exM.params).map (·.1)) exM.ar ∧
+    ∃ m', replaceParameterValues exE exM = .ok m' ∧ names m'.params = [] := by
+  refine ⟨by unfold NamesNodup; decide, ⟨fun x A h => by simp [exM, AR.empty] at h, fun x c h => by simp [exM, AR.empty] at h⟩, _, rfl, by decide⟩
+
+/-- replace_parameter_expressions, including its substitution fixpoint: whatever the number of
+    rounds, if the resolved values are closed then giving the removed parameters their resolved values
+    satisfies their *original* definitions (`fix_back`: every round of the loop commutes with the
+    original bindings). -/
+theorem parameter_expressions_complete {I : Interp K} {E : Engine K} (hE : EngineOk I E) {τ : Env K} {m : Model K}
+    (hnd : NamesNodup m)
+    (hclosed : ∀ p ∈ fixedList E m.params, ∀ n ∈ p.2.syms, n ∉ (exprValues m.params).map (·.1))
+    (hfree : ARFree ((exprValues m.params).map (·.1)) m.ar)
+    (hs : Sat I τ (replaceParameterExpressions E m)) :
+    ∃ σ, Sat I σ m ∧ ∀ n, n ∉ (exprValues m.params).map (·.1) → σ n = τ n :=
+  pexpr_complete hE hnd hclosed hfree hs
+
+/-- replace_constant_expressions -/
+theorem constant_expressions_complete {I : Interp K} {E : Engine K} (hE : EngineOk I E) {τ : Env K} {m : Model K}
+    (hnd : NamesNodup m)
+    (hclosed : ∀ p ∈ fixedList E m.consts, ∀ n ∈ p.2.syms, n ∉ (exprValues m.consts).map (·.1))
+    (hfree : ARFree ((exprValues m.consts).map (·.1)) m.ar)
+    (hs : Sat I τ (replaceConstantExpressions E m)) :
+    ∃ σ, Sat I σ m ∧ ∀ n, n ∉ (exprValues m.consts).map (·.1) → σ n = τ n :=
+  cexpr_complete hE hnd hclosed hfree hs
+
+/-- chain `q1 = q0 + 1`, `q0 = 2*p`, `p = 3`: resolved in two rounds, closed -/
+def exChain : Model Rat :=
+  { params := [{ name := "p", value := some (.const 3) },
+               { name := "q0", value := some (.bin .mul (.const 2) (.sym "p")) },
+               { name := "q1", value := some (.bin .add (.sym "q0") (.const 1)) }],
+    algs := [{ name := "x" }], eqs := [.bin .sub (.sym "x") (.sym "q1")] }
+
+example : NamesNodup exChain ∧
+    (∀ p ∈ fixedList exE exChain.params, ∀ n ∈ p.2.syms, n ∉ (exprValues exChain.params).map (·.1)) := by
+  refine ⟨by unfold NamesNodup; decide, ?_⟩
+  decide
+
+/-- eliminable_variable_expression (algebraic variables) -/
+theorem eliminable_complete {I : Interp K} {E : Engine K} (hE : EngineOk I E) {expandMx : Bool} {matched : List String}
+    {m m' : Model K} {τ : Env K} (h : eliminateVariables E expandMx matched m = .ok m')
+    (hpre : ∀ σ : Env K, ∀ e ∈ m.eqs, ExtractPre I σ e)
+    (hclosed : ∀ r, elimLoop (names m.states) (names m.states ++ names m.algs) matched m.eqs m.algs = .ok r →
+      ∀ p ∈ elimList E r.2.1, ∀ n ∈ p.2.syms, n ∉ r.2.1.map (·.1))
+    (hvals : ∀ r, elimLoop (names m.states) (names m.states ++ names m.algs) matched m.eqs m.algs = .ok r →
+      ∀ v ∈ m.params ++ m.consts, v.name ∉ r.2.1.map (·.1) ∧ ∀ t, v.value = some t → ∀ n ∈ t.syms, n ∉ r.2.1.map (·.1))
+    (hfree : ∀ r, elimLoop (names m.states) (names m.states ++ names m.algs) matched m.eqs m.algs = .ok r →
+      ARFree (r.2.1.map (·.1)) m.ar)
+    (hs : Sat I τ m') :
+    ∃ σ, Sat I σ m ∧ ∀ r, elimLoop (names m.states) (names m.states ++ names m.algs) matched m.eqs m.algs = .ok r →
+      ∀ n, n ∉ r.2.1.map (·.1) → σ n = τ n :=
+  elim_complete hE h hpre hclosed hvals hfree hs
+
+example : ∀ σ : Env Rat, ∀ e ∈ exM.eqs, ExtractPre exI σ e := by
+  intro σ e he
+  simp [exM] at he
+  rcases he with rfl | rfl | rfl | rfl <;> simp [ExtractPre]
+
+/-- detect_aliases (first pass: empty alias relation): every dropped alias equation is implied by the
+    recorded aliases.  `_make_alias` only joins unrelated variables, the alias relation keeps its
+    invariant `WF`, so the two symbols of a dropped equation end in one class, every non-canonical
+    member of a class is bound to ± its canonical variable by the elimination loop, and no canonical
+    variable is eliminated.  `GzOk` is used only through "what `is_zero` calls zero is zero". -/
+theorem alias_detection_complete {I : Interp K} {E : Engine K} (hE : EngineOk I E) {allowDer : Bool} {m m' : Model K} {τ : Env K}
+    (hempty : m.ar = AR.empty) (hnd : NamesNodup m)
+    (hg : ∀ k e, m.eqs[k]? = some e → GzOk I E k (E.view k e))
+    (hvals : ∀ v ∈ m.params ++ m.consts, ∀ t, v.value = some t → ∀ n ∈ t.syms, n ∉ names m.algs)
+    (htime : "time" ∉ names m.algs)
+    (h : detectAliases E allowDer m = .ok m') (hs : Sat I τ m') :
+    ∃ σ, Sat I σ m ∧ (∀ n, n ∈ m'.known → σ n = τ n) ∧ (∀ n, n ∉ names m.algs → σ n = τ n) :=
+  alias_complete hE hempty hnd hg hvals htime h hs
+
+example : exM.ar = AR.empty ∧ NamesNodup exM ∧ "time" ∉ names exM.algs ∧
+    (∀ k e, exM.eqs[k]? = some e → GzOk exI exE k (exE.view k e)) ∧
+    ∃ m', detectAliases exE true exM = .ok m' ∧ names m'.algs = ["x", "y", "w"] := by
+  refine ⟨rfl, by unfold NamesNodup; decide, by decide, ?_, _, rfl, by decide⟩
+  intro k e _ a b s hz
+  simp [exE] at hz
+
+/-- `pipeline_complete`: composition over the pass list.  If every enabled pass, on the model it
+    receives, loses nothing outside the name list `D` (the per-pass theorems above, with `D` any list
+    containing the removed names), then a solution of the result of `_simplify_once` extends to a
+    solution of the original model that agrees with it outside `D`. -/
+def RunBack (I : Interp K) (E : Pass → Engine K) (o : Opts) (D : List String) : List Pass → Model K → Prop
+  | [], _ => True
+  | p :: ps, m =>
+    if p.enabled o then
+      (∀ m' τ, Pass.run (E p) o p m = .ok m' → Sat I τ m' → ∃ σ, Sat I σ m ∧ ∀ n, n ∉ D → σ n = τ n) ∧
+      ∀ m', Pass.run (E p) o p m = .ok m' → RunBack I E o D ps m'
+    else RunBack I E o D ps m
+
+theorem pipeline_complete {I : Interp K} {E : Pass → Engine K} (o : Opts) (D : List String) :
+    ∀ (ps : List Pass) (m m' : Model K) (τ : Env K), RunBack I E o D ps m → runPasses E o ps m = .ok m' → Sat I τ m' →
+      ∃ σ, Sat I σ m ∧ ∀ n, n ∉ D → σ n = τ n
+  | [], m, m', τ, _, h, hs => by simp [runPasses] at h; subst h; exact ⟨τ, hs, fun _ _ => rfl⟩
+  | p :: ps, m, m', τ, hpre, h, hs => by
+    simp only [runPasses] at h
+    simp only [RunBack] at hpre
+    split at h
+    · rename_i hen
+      simp only [hen, if_true] at hpre
+      split at h
+      · simp at h
+      · rename_i m1 h1
+        obtain ⟨σ1, hs1, ha1⟩ := pipeline_complete o D ps m1 m' τ (hpre.2 m1 h1) h hs
+        obtain ⟨σ0, hs0, ha0⟩ := hpre.1 m1 σ1 h1 hs1
+        exact ⟨σ0, hs0, fun n hn => by rw [ha0 n hn, ha1 n hn]⟩
+    · rename_i hen
+      simp only [hen] at hpre
+      exact pipeline_complete o D ps m m' τ (by simpa using hpre) h hs
+
+example : RunBack exI (fun _ => exE) {} [] [] exM := trivial
 
 end PymocaVerif.Simplify
